@@ -133,9 +133,17 @@ def _walk(stmts, prefix, res, limit, k=None):
 def returns_with_conds(func, asserts=True):
     """[(conds, return_expr)] for every returning path."""
     out = []
+
+    def emit(conds, e, p):
+        # `return a if c else b` is the two returning paths of `if c: return a / else: return b`
+        if isinstance(e, ast.IfExp):
+            emit(conds + [(t, pol) for _, t, pol in _outcome(e.test, True)], e.body, p)
+            emit(conds + [(t, pol) for _, t, pol in _outcome(e.test, False)], e.orelse, p)
+        else:
+            out.append((conds, e, p))
     for p in func_paths(func):
         if p.end[0] == 'return':
-            out.append((p.conds(asserts), p.end[1], p))
+            emit(list(p.conds(asserts)), p.end[1], p)
     return out
 
 
